@@ -700,6 +700,9 @@ func c17Chain(c *Ctx) {
 	}
 	r.Fn(relName(cp), relName(ca), relName(ne), relName(er))
 	copyFreshObligation(c, "CHAIN")
+	// a chain extended into another error object shares its backing array: the frame one importer appends is
+	// overwritten by the next importer's (the premise shared with C15 APPEND-OWNED, on the error package only)
+	appendOwnedRule(c, "CHAIN", []string{pErr, pEngine})
 	// the frame appended for an outer use() call site carries that call site's own position
 	nW := 0
 	if push := t.Method(pEngine, "searchPath", "Push"); push != nil {
